@@ -41,9 +41,19 @@ func (b BoolSchema) unserialize(data any) (any, error) {
 	case bool:
 		return v, nil
 	case string:
-		lowerStr := strings.ToLower(v)
-		if serializedValue, ok := boolStringValues[lowerStr]; ok {
-			return serializedValue, nil
+		// The boolean words are ASCII. Lower-casing maps some other letters onto ASCII ones (the dotted
+		// capital I of "DİSABLE" becomes an i), which would turn a non-word into a word.
+		isASCII := true
+		for i := 0; i < len(v); i++ {
+			if v[i] >= 0x80 {
+				isASCII = false
+				break
+			}
+		}
+		if isASCII {
+			if serializedValue, ok := boolStringValues[strings.ToLower(v)]; ok {
+				return serializedValue, nil
+			}
 		}
 	case int:
 		return intConverter(int64(v))
